@@ -21,6 +21,6 @@ contract("monkeytype.compat:is_typed_dict", props=["C04", "C06", "C08"], theorie
 
 contract("monkeytype.compat:is_generic_of", props=["C07"], theories=TH,
          params={"typ": "Ty", "gen": "Ty"}, result="bool",
-         requires={"gen-bare": "is_special(gen)", "not-bare-union": "typ is not UNION_BARE"},
+         requires={"gen-generic": "is_special(gen) or is_galias(gen)", "not-bare-union": "typ is not UNION_BARE"},
          ensures={"post:def": "result == ((typ is UNION_BARE or is_galias(typ) or is_special(typ)) and origin(typ) is origin(gen))"},
          note="typ is Union (bare) has no __origin__: excluded by callers passing union members")
